@@ -1,6 +1,7 @@
 package chain
 
 import (
+	"os"
 	"bytes"
 	"encoding/hex"
 	"encoding/json"
@@ -416,6 +417,9 @@ func (w *World) applyTx(h int64, idx int, p *TxPlan, r *abci.ResponseDeliverTx, 
 		w.Probes.Hit("tamper.sig-malleated")
 	}
 
+	if !ok && tx.Type == trxVoting && !p.Tampered && p.ReplayOf < 0 {
+		w.checkVoteShouldCount(h, idx, p, r, gov)
+	}
 	if !ok {
 		// C17: a contract transaction that satisfies every native precondition and succeeds on the
 		// reference EVM must not fail
@@ -762,6 +766,15 @@ func (w *World) applyEvmTx(h int64, idx int, p *TxPlan, r *abci.ResponseDeliverT
 		}
 	}
 	w.compareLogs(h, idx, r, ref)
+	if os.Getenv("VERIF_DEBUG") != "" {
+		for k := 0; k+32 <= len(data) && k < 6*32; k += 32 {
+			a := ToAddr(data[k+12 : k+32])
+			w.logf("D h=%d tx=%d word%d %s bal=%s nonce=%d code=%d suicided=%v", h, idx, k/32, a.Hex(), m.W.GetBalance(common.Address(a)), m.W.GetNonce(common.Address(a)), len(m.W.GetCode(common.Address(a))), m.Destroyed[a])
+		}
+		if to != nil {
+			w.logf("D h=%d tx=%d callee %s bal=%s nonce=%d code=%d destructed=%v", h, idx, to.Hex(), m.W.GetBalance(common.Address(*to)), m.W.GetNonce(common.Address(*to)), len(m.W.GetCode(common.Address(*to))), ref.Destructed)
+		}
+	}
 	w.noteEvmAccounts(ref)
 	if to == nil {
 		w.logf("E h=%d tx=%d deploy by %s -> %x gas=%d", h, idx, from.Hex(), r.Data, ref.GasUsed)
@@ -791,11 +804,16 @@ func (w *World) noteEvmAccounts(ref *EvmResult) {
 		m.Destroyed[Addr(d.Addr)] = true
 		w.Probes.Hit("evm.selfdestruct")
 		if w.Tr.Cfg.AvoidKnown {
-			// listed finding (known_findings.json, C17 selfdestruct-native-nonce): the node keeps the
-			// destroyed contract's nonce in the native ledger and feeds it back into the EVM on the
-			// next access. Random exploration mirrors exactly this so that worlds can continue past a
-			// self-destruct; the witness trace is replayed without the mirror.
+			// listed finding (known_findings.json, C17 selfdestruct-native-residue): the node copies the
+			// destroyed contract's nonce and balance to the native ledger before the EVM deletes the
+			// account and feeds them back into the EVM on the next access. Random exploration mirrors
+			// exactly this so that worlds can continue past a self-destruct; the witness traces are
+			// replayed without the mirror.
 			m.W.SetNonce(d.Addr, d.Nonce)
+			if d.Balance != nil && d.Balance.Sign() > 0 {
+				m.W.SetBalance(d.Addr, d.Balance)
+				w.Probes.Hit("evm.value-sent-to-destroyed-contract")
+			}
 		}
 	}
 }
@@ -880,3 +898,41 @@ func (w *World) checkEvmShouldFail(h int64, idx int, p *TxPlan, r *abci.Response
 }
 
 func sortInt64(a []int64) { sort.Slice(a, func(i, j int) bool { return a[i] < a[j] }) }
+
+
+// checkVoteShouldCount: the recorded validators vote, each counted once, the latest replacing earlier
+// ones: a vote by a recorded voter, inside the window, for an existing option, that satisfies the
+// common admission rules (signature, nonce, price, minimum fee, funds) must be counted.
+func (w *World) checkVoteShouldCount(h int64, idx int, p *TxPlan, r *abci.ResponseDeliverTx, gov GovP) {
+	m := w.M
+	tx := p.Tx
+	from := ToAddr(tx.From)
+	pl, _ := tx.Payload.(*rtypes.TrxPayloadVoting)
+	if pl == nil || ToAddr(tx.To) != (Addr{}) {
+		return
+	}
+	mp := m.Props[hex.EncodeToString(pl.TxHash)]
+	if mp == nil || h < mp.Start || h > mp.End || pl.Choice < 0 || int(pl.Choice) >= len(mp.Options) {
+		return
+	}
+	vt := mp.Voters[from]
+	if vt == nil || vt.Power <= 0 {
+		return
+	}
+	if _, valid := verifySig(tx, m.ChainID); !valid {
+		return
+	}
+	price := tx.GasPrice.ToBig()
+	fee := new(big.Int).Mul(price, new(big.Int).SetUint64(tx.Gas))
+	minFee := new(big.Int).Mul(gov.GasPrice, new(big.Int).SetUint64(gov.MinTrxGas))
+	if tx.Nonce != m.Nonce(from) || price.Cmp(gov.GasPrice) != 0 || fee.Cmp(minFee) < 0 || m.Balance(from).Cmp(fee) < 0 || tx.Amount.Sign() != 0 {
+		return
+	}
+	if tx.Gas > 1<<40 {
+		return // extreme gas limits are rejected for a reason no property describes
+	}
+	if _, seen := m.Executed[hex.EncodeToString(p.Hash)]; seen {
+		return
+	}
+	w.violate("vote.rejected-valid", pC15, h, "tx %d: vote of recorded voter %s (power %d) for option %d inside the window [%d,%d] was rejected: code %d %q", idx, from.Hex(), vt.Power, pl.Choice, mp.Start, mp.End, r.Code, r.Log)
+}
